@@ -259,3 +259,42 @@ def cmp_parts(e):
         if zero:
             l, r = a, b
     return (_NEG[op] if neg else op), l, r
+
+
+def loop_range(lp):
+    """the container a loop runs over from its first to its last element: the range of a range-for, or C of the iterator form
+    `for (auto it = C.begin(); it != C.end(); ++it)` (the iterator not written in the body) — else None"""
+    if not is_node(lp):
+        return None
+    if lp.get('k') == 'forrange':
+        return lp.get('range')
+    if lp.get('k') != 'for':
+        return None
+    ini = lp.get('init')
+    ds = ini.get('d') if is_node(ini) and ini.get('k') == 'decls' else None
+    if not ds or len(ds) != 1 or not is_node(ds[0].get('init')):
+        return None
+    b = strip(ds[0]['init'])
+    if not (is_node(b) and b.get('k') == 'mcall' and short(b.get('callee', '')) in ('begin', 'cbegin') and not real_args(b)):
+        return None
+    cont = b.get('obj')
+    it = ds[0].get('id')
+    c = strip(lp.get('c'))
+    neg = False
+    if is_node(c) and c.get('k') == 'un' and c.get('op') == '!':
+        c, neg = strip(c.get('e')), True
+    cp = cmp_parts(c) if is_node(c) else None
+    if not cp or (cp[0], neg) not in (('!=', False), ('==', True)):
+        return None
+    sides = [strip(cp[1]), strip(cp[2])]
+    has_it = any(is_node(x) and x.get('k') == 'ref' and x.get('id') == it for x in sides)
+    has_end = any(is_node(x) and x.get('k') == 'mcall' and short(x.get('callee', '')) in ('end', 'cend') and show(strip(x.get('obj'))) == show(strip(cont)) for x in sides)
+    inc = strip(lp.get('inc'))
+    inc_ok = is_node(inc) and show(inc).replace(' ', '') in ('++' + (ds[0].get('name') or ''), (ds[0].get('name') or '') + '++')
+    if not (has_it and has_end and inc_ok):
+        return None
+    for n in walk(lp.get('body')):
+        w = write_target(n)
+        if w and is_node(strip(w[0])) and strip(w[0]).get('id') == it:
+            return None
+    return cont
